@@ -177,6 +177,13 @@ impl Storage {
     #[must_use]
     pub fn stores_as_values(self) -> Vec<RuntimeBoxedVal> {
         let mut all_values: Vec<RuntimeBoxedVal> = Vec::new();
+        #[cfg(smlxl_storage_layout_extractor_verif)]
+        let group_sizes: Vec<usize> = self
+            .known_slots
+            .values()
+            .chain(self.symbolic_slots.values())
+            .map(Vec::len)
+            .collect();
 
         self.known_slots
             .into_iter()
@@ -197,7 +204,7 @@ impl Storage {
             });
 
         #[cfg(smlxl_storage_layout_extractor_verif)]
-        crate::verif_hooks::order("vm.storage.export", &mut all_values);
+        crate::verif_hooks::order_groups("vm.storage.export", &mut all_values, &group_sizes);
         all_values
     }
 }
